@@ -85,7 +85,12 @@ def identity(eng, st, fr, args, fn, site):
 
 
 def ts_new(eng, st, fr, args, fn, site):
-    return ('agg', TIMESPEC, 'TimeSpec', (('agg', LIBC_TIMESPEC, 'timespec', (args[0], args[1])),))
+    a, b = args[0], args[1]
+    # TimeSpec::new(x.tv_sec, x.tv_nsec) re-assembles the timespec x
+    if a[0] == 't' and a[1] == 'field' and b[0] == 't' and b[1] == 'field' and a[2][0] == b[2][0] and \
+            str(a[2][1]) == 'tv_sec' and str(b[2][1]) == 'tv_nsec':
+        return ('agg', TIMESPEC, 'TimeSpec', (a[2][0],))
+    return ('agg', TIMESPEC, 'TimeSpec', (('agg', LIBC_TIMESPEC, 'timespec', (a, b)),))
 
 
 def ts_from(eng, st, fr, args, fn, site):
@@ -135,11 +140,25 @@ def checked_add_exact(ty):
 INT_RANGE_EARLY = {'u8': (0, 2**8 - 1), 'u16': (0, 2**16 - 1), 'u32': (0, 2**32 - 1), 'u64': (0, 2**64 - 1), 'usize': (0, 2**64 - 1)}
 
 
+def _size_of_type_string(eng, s):
+    for c in eng.facts.crates:
+        a = c.adts.get(s)
+        if a and 'size' in a:
+            return int(a['size'])
+    prim = {'u8': 1, 'i8': 1, 'bool': 1, 'u16': 2, 'i16': 2, 'u32': 4, 'i32': 4, 'f32': 4, 'u64': 8, 'i64': 8, 'f64': 8, 'usize': 8, 'isize': 8,
+            'u128': 16, 'i128': 16}
+    return prim.get(s)
+
+
 def size_of(eng, st, fr, args, fn, site):
     crate = fr.body.crate
     targs = (fn or {}).get('targs') or []
     if targs:
         t = crate.types[targs[0]]
+        if t.get('k') == 'param':
+            # size_of::<T>() inside a generic function inlined with T known
+            n = _size_of_type_string(eng, fr.concrete(targs[0]))
+            return C(n, 'usize') if n is not None else None
         adt = crate.adts.get(t['s'])
         if adt and 'size' in adt:
             return C(adt['size'], 'usize')
@@ -389,6 +408,38 @@ def _rb_or_else_opt(var, v, keep=None):
     return v if var == 'None' and keep is None and v is not None else ('agg', OPT, 'Some', (keep,))
 
 
+def array_into_iter(eng, st, fr, args, fn, site):
+    """[T; N]::into_iter(): an iterator value that remembers the array and the position"""
+    arr = args[0]
+    if arr[0] == 'agg' and arr[1] in ('array',) or (arr[0] == 'agg' and arr[2] is None and arr[1].startswith('[')):
+        return T('arr_iter', arr, C(0, 'usize'))
+    return None
+
+
+def array_iter_next(eng, st, fr, args, fn, site):
+    d = ptr_term(args[0])
+    if d[0] != 'ref':
+        return None
+    it = eng.load(st, d[1])
+    if not (it[0] == 't' and it[1] == 'arr_iter' and is_int_const(it[2][1])):
+        return None
+    arr, i = it[2][0], it[2][1][1]
+    if i < len(arr[3]):
+        eng.write(st, d[1], T('arr_iter', arr, C(i + 1, 'usize')))
+        return ('agg', OPT, 'Some', (arr[3][i],))
+    return ('agg', OPT, 'None', ())
+
+
+def nonnull_as_ref(eng, st, fr, args, fn, site):
+    """NonNull::as_ref(&self) / as_mut: a reference to what the pointer points to"""
+    p = deref(eng, st, ptr_term(args[0]))
+    return p if p[0] == 'ref' else ('ref', (('S', p), ()))
+
+
+def nonnull_new(eng, st, fr, args, fn, site):
+    return ('agg', OPT, 'Some', (args[0],))
+
+
 def bool_then_some(eng, st, fr, args, fn, site):
     b, v = args[0], args[1]
     if is_int_const(b):
@@ -531,8 +582,17 @@ def _split(segs, at):
 
 def flatten_bytes(v):
     v = ptr_term(v)
-    if v[0] == 'agg' and v[1] == 'array':
-        return [(1, ('val', o)) for o in v[3]]
+    if v[0] == 'agg' and (v[1] == 'array' or (v[2] is None and v[1].startswith('[u8;'))):
+        # a literal byte array: runs of equal constant bytes become fill segments
+        out = []
+        for o in v[3]:
+            if out and out[-1][1][0] == 'fill' and out[-1][1][1] == o and is_int_const(o):
+                out[-1] = (out[-1][0] + 1, out[-1][1])
+            elif is_int_const(o):
+                out.append((1, ('fill', o)))
+            else:
+                out.append((1, ('val', o)))
+        return out
     if v[0] != 't':
         return None
     op, a = v[1], v[2]
@@ -544,6 +604,21 @@ def flatten_bytes(v):
         return [(a[1], ('val', a[0]))]
     if op == 'call' and a[0].endswith('vec::from_elem') and len(a) >= 4 and is_int_const(a[3]):
         return [(a[3][1], ('fill', a[2]))] if a[3][1] else []
+    if op == 'subbytes' and is_int_const(a[1]) and is_int_const(a[2]):
+        x = flatten_bytes(a[0])
+        lo, hi = a[1][1], a[2][1]
+        if x is None or hi > sum(l for l, _ in x) or lo > hi:
+            return None
+        x = _split(x, lo)
+        x = _split(x, hi) if x is not None else None
+        if x is None:
+            return None
+        out, off = [], 0
+        for l, c in x:
+            if lo <= off < hi:
+                out.append((l, c))
+            off += l
+        return out
     if op == 'concat':
         x, y = flatten_bytes(a[0]), flatten_bytes(a[1])
         return None if x is None or y is None else x + y
@@ -607,6 +682,75 @@ def buf_index(eng, st, fr, args, fn, site):
     return T('subslice', ptr_term(args[0]), C(r[0], 'usize'), C(r[1], 'usize'))
 
 
+def slice_get(eng, st, fr, args, fn, site):
+    """<[T]>::get(range) on a buffer whose contents are known: Some(sub-buffer) when the range is inside, None otherwise"""
+    r = args[1]
+    lo = hi = None
+    if r[0] == 'agg' and r[1].split('<')[0].endswith('::RangeTo') and len(r[3]) == 1 and is_int_const(r[3][0]):
+        lo, hi = 0, r[3][0][1]
+    else:
+        rr = _range_of(r)
+        if rr is not None:
+            lo, hi = rr
+    if lo is None:
+        return None
+    buf = deref(eng, st, ptr_term(args[0]))
+    n = bytes_len(buf)
+    if n is None:
+        return None
+    if hi <= n and lo <= hi:
+        h = ('H', 400000 + st.next_heap)
+        st.next_heap += 1
+        st.store[(h, ())] = T('subbytes', buf, C(lo, 'usize'), C(hi, 'usize'))
+        return ('agg', OPT, 'Some', (('ref', (h, ())),))
+    return ('agg', OPT, 'None', ())
+
+
+def byteorder_write(width, native=True):
+    """<E as byteorder::ByteOrder>::write_uN(buf, v): fills the first N bytes of the buffer with v (byte-swapped when E is
+    not the byte order of the analysed target, which is little-endian)"""
+    def f(eng, st, fr, args, fn, site):
+        d = ptr_term(args[0])
+        src = T('ne_bytes', args[1] if native else T('bswap', args[1], width), width)
+        if d[0] == 'ref':
+            old = eng.load(st, d[1])
+            n = bytes_len(old)
+            if n == width:
+                eng.write(st, d[1], src)
+                return C(None, '()')
+            if n is not None and n > width:
+                eng.write(st, d[1], T('splice', old, C(0, 'usize'), C(width, 'usize'), src))
+                return C(None, '()')
+            return None
+        if d[0] == 't' and d[1] == 'subslice' and d[2][0][0] == 'ref' and is_int_const(d[2][1]):
+            old = eng.load(st, d[2][0][1])
+            lo = d[2][1][1]
+            eng.write(st, d[2][0][1], T('splice', old, C(lo, 'usize'), C(lo + width, 'usize'), src))
+            return C(None, '()')
+        return None
+    return f
+
+
+def size_of_val(eng, st, fr, args, fn, site):
+    crate = fr.body.crate
+    targs = (fn or {}).get('targs') or []
+    if targs:
+        t = crate.types[targs[0]]
+        adt = crate.adts.get(t['s'])
+        if adt and 'size' in adt:
+            return C(int(adt['size']), 'usize')
+        if t.get('k') in ('int', 'uint'):
+            return C(t['bits'] // 8, 'usize')
+        if t.get('size'):
+            return C(int(t['size']), 'usize')
+        inner = t['s']
+        if inner.startswith('std::mem::MaybeUninit<') or inner.startswith('std::mem::maybe_uninit::MaybeUninit<'):
+            a2 = crate.adts.get(inner[inner.index('<') + 1:-1])
+            if a2 and 'size' in a2:
+                return C(int(a2['size']), 'usize')
+    return None
+
+
 def copy_from_slice(eng, st, fr, args, fn, site):
     d = ptr_term(args[0])
     src = deref(eng, st, ptr_term(args[1]))
@@ -657,6 +801,31 @@ def same_ptr(eng, st, fr, args, fn, site):
 
 
 SUMMARIES = {
+    'nix::sys::time::TimeValLike::zero': lambda e, s_, f, a, fn, site: T('ts_nanoseconds', C(0, 'i64')),
+    'std::num::<impl u64>::to_le_bytes': to_bytes(8),
+    'std::num::<impl u64>::to_be_bytes': lambda e, s_, f, a, fn, site: T('ne_bytes', T('bswap', a[0], 8), 8),
+    'std::num::<impl u32>::to_le_bytes': to_bytes(4),
+    'std::num::<impl u32>::to_be_bytes': lambda e, s_, f, a, fn, site: T('ne_bytes', T('bswap', a[0], 4), 4),
+    'std::num::<impl u16>::to_le_bytes': to_bytes(2),
+    'std::num::<impl u16>::to_be_bytes': lambda e, s_, f, a, fn, site: T('ne_bytes', T('bswap', a[0], 2), 2),
+    '<byteorder::LittleEndian as byteorder::ByteOrder>::write_u16': byteorder_write(2),
+    '<byteorder::LittleEndian as byteorder::ByteOrder>::write_u32': byteorder_write(4),
+    '<byteorder::LittleEndian as byteorder::ByteOrder>::write_u64': byteorder_write(8),
+    '<byteorder::LittleEndian as byteorder::ByteOrder>::write_i32': byteorder_write(4),
+    '<byteorder::LittleEndian as byteorder::ByteOrder>::write_i64': byteorder_write(8),
+    '<byteorder::BigEndian as byteorder::ByteOrder>::write_u16': byteorder_write(2, native=False),
+    '<byteorder::BigEndian as byteorder::ByteOrder>::write_u32': byteorder_write(4, native=False),
+    '<byteorder::BigEndian as byteorder::ByteOrder>::write_u64': byteorder_write(8, native=False),
+    '<byteorder::BigEndian as byteorder::ByteOrder>::write_i32': byteorder_write(4, native=False),
+    '<byteorder::BigEndian as byteorder::ByteOrder>::write_i64': byteorder_write(8, native=False),
+    'std::mem::size_of_val': size_of_val,
+    'nix::sys::time::TimeSpec::from_timespec': ts_from,
+    'nix::sys::time::TimeSpec::from_duration': lambda e, s, f, a, fn, site: T('ts_from_duration', a[0]),
+    '<nix::sys::time::TimeSpec as nix::sys::time::TimeValLike>::zero': lambda e, s, f, a, fn, site: T('ts_nanoseconds', C(0, 'i64')),
+    'nix::sys::time::TimeSpec::zero': lambda e, s, f, a, fn, site: T('ts_nanoseconds', C(0, 'i64')),
+    'std::time::Duration::new': lambda e, s, f, a, fn, site: T('dur_new', a[0], a[1]),
+    'std::time::Duration::from_nanos': un_val('dur_from_nanos'),
+    'std::time::Duration::from_micros': un_val('dur_from_micros'),
     'std::convert::num::<impl std::convert::TryFrom<isize> for usize>::try_from': int_try_from('isize', 'usize'),
     'std::convert::num::<impl std::convert::TryFrom<isize> for u64>::try_from': int_try_from('isize', 'u64'),
     'std::convert::num::<impl std::convert::TryFrom<isize> for u32>::try_from': int_try_from('isize', 'u32'),
@@ -721,6 +890,7 @@ SUMMARIES = {
     '<std::vec::Vec<T, A> as std::ops::IndexMut<I>>::index_mut': buf_index,
     '<std::vec::Vec<T, A> as std::ops::Index<I>>::index': buf_index,
     'std::slice::<impl [T]>::copy_from_slice': copy_from_slice,
+    'std::slice::<impl [T]>::get': slice_get,
     'std::slice::<impl [T]>::clone_from_slice': copy_from_slice,
     'std::slice::<impl [T]>::len': buf_len,
     'std::vec::Vec::<T, A>::len': buf_len,
@@ -745,9 +915,22 @@ SUMMARIES = {
     'std::result::Result::<T, E>::map_or': map_or_else(RES, with_default_fn=False),
     'std::option::Option::<T>::zip': opt_zip,
     'std::array::<impl [T; N]>::map': array_map,
+    'std::array::iter::<impl std::iter::IntoIterator for [T; N]>::into_iter': array_into_iter,
+    '<std::array::IntoIter<T, N> as std::iter::Iterator>::next': array_iter_next,
+    '<std::array::iter::IntoIter<T, N> as std::iter::Iterator>::next': array_iter_next,
     'std::option::Option::<T>::or_else': hof(OPT, 'None', _rb_or_else_opt),
     'std::option::Option::<std::result::Result<T, E>>::transpose': opt_transpose,
     'std::option::Option::<T>::filter': opt_filter,
+    'std::ptr::non_null::NonNull::<T>::new_unchecked': same_ptr,
+    'std::ptr::non_null::NonNull::<T>::new': nonnull_new,
+    'std::ptr::non_null::NonNull::<T>::as_ptr': same_ptr,
+    'std::ptr::non_null::NonNull::<T>::cast': same_ptr,
+    'std::ptr::non_null::NonNull::<T>::as_ref': nonnull_as_ref,
+    'std::ptr::non_null::NonNull::<T>::as_mut': nonnull_as_ref,
+    'std::ptr::mut_ptr::<impl *mut T>::cast': same_ptr,
+    'std::ptr::const_ptr::<impl *const T>::cast': same_ptr,
+    'std::ptr::mut_ptr::<impl *mut T>::cast_const': same_ptr,
+    'std::ptr::const_ptr::<impl *const T>::cast_mut': same_ptr,
     'std::bool::<impl bool>::then_some': bool_then_some,
     'std::bool::<impl bool>::then': bool_then,
     'std::num::<impl usize>::next_multiple_of': next_multiple_of,
